@@ -99,6 +99,28 @@ class Prover:
             sb, db = tk_bits(src), tk_bits(dst)
             if sb is not None and db is not None and tk_unsigned(src) and db >= sb:
                 return self.lin(v[3])
+        if t == "call" and getattr(self, "engine", None) is not None and self.engine.is_local(v[1]):
+            rl = self.engine.retlin(self.engine.F.fns[v[1]])
+            if rl is not None:
+                from .guard import _subst_params
+                args = [a[1] if a[0] == "byref" else a for a in v[2]]
+                out = (rl[0], ())
+                ok = True
+                for ph, k in rl[1]:
+                    if ph[0] == "P":
+                        val = args[ph[1] - 1]
+                    elif ph[0] == "PL":
+                        val = self.an.len_of(args[ph[1] - 1])
+                    elif ph[0] == "PT":
+                        val = _subst_params(ph[1], args)
+                        if val[0] == "len":
+                            val = self.an.len_of(val[1])
+                    else:
+                        ok = False
+                        break
+                    out = lin_add(out, lin_scale(self.lin(val), k))
+                if ok:
+                    return out
         return (0, ((v, 1),))
 
     # -------------------------------------------------------------------- intervals
@@ -136,12 +158,52 @@ class Prover:
             # narrowing or sign-changing cast whose source range fits is handled in lin();
             # here: bound by target type only
             pass
+        vals = None
+        if t == "elem" and atom[1][0] == "static" and getattr(self, "engine", None) is not None:
+            st = self.engine.F.statics.get(atom[1][1])
+            if st is not None and "bytes" in st and st["ty"]["t"]["k"] == "array" and \
+                    st["ty"]["t"]["of"].get("bits") == 8:
+                vals = set(st["bytes"])
         for f in facts:
             if f[0] == "in" and f[1] == atom:
-                lo, hi = max(lo, min(f[2])), min(hi, max(f[2]))
+                vals = set(f[2]) if vals is None else (vals & set(f[2]))
             elif f[0] == "eqc" and f[1] == atom:
                 lo, hi = max(lo, f[2]), min(hi, f[2])
+        if vals is not None:
+            for f in facts:
+                if f[0] == "nec" and f[1] == atom:
+                    vals.discard(f[2])
+            if vals:
+                lo, hi = max(lo, min(vals)), min(hi, max(vals))
         return lo, hi
+
+    def infeasible(self, facts):
+        """are the facts contradictory (the point is unreachable)?"""
+        for f in facts:
+            if f[0] == "le":
+                lo, hi = self.interval_lin(lin_norm(f[1]), facts)
+                if lo > 0:
+                    return True
+            elif f[0] == "ne":
+                d = lin_add(self.lin(f[1]), self.lin(f[2]), -1)
+                if not d[1] and d[0] == 0:
+                    return True
+            elif f[0] == "nec":
+                l = self.lin(f[1])
+                if not l[1] and l[0] == f[2]:
+                    return True
+            elif f[0] == "eqc":
+                l = self.lin(f[1])
+                if not l[1] and l[0] != f[2]:
+                    return True
+        # a strict contradiction between two facts: f1 + f2 >= 1 > 0 impossible when both <= 0
+        les = [lin_norm(f[1]) for f in facts if f[0] == "le"]
+        for i in range(len(les)):
+            for j in range(i + 1, len(les)):
+                ssum = lin_add(les[i], les[j])
+                if not ssum[1] and ssum[0] > 0:
+                    return True
+        return False
 
     def interval_lin(self, l, facts):
         lo = hi = l[0]
